@@ -221,10 +221,18 @@ def actions_gate(run):
                     'ElectionRecord.action / the rule action hooks, extracted, are no longer the tables the JSON model is driven by')
 
 
+def dump_gate(run):
+    from props import gen_gate
+    return gen_gate(run, 'translator_dump', 'gen_dump', 'tables',
+                    'Gen.dumpHooks / dumpBase / dumpCand / dumpMsgTags = C18.* by rfl; dumpHeader_is_table, dumpRow_is_table (lean/Props/C18Dump.lean)',
+                    'ElectionRecord.dump or the dump hooks of MethodMeek / MethodWIGM / qpq, extracted, are no longer the column tables '
+                    'lean/Props/C18Dump.lean proves the dump model to evaluate')
+
+
 @prop('C18')
 def C18(run):
     count_property(run, dict(rules=ALL, keys=['C18'], proj=proj_C18, quick=4000, thorough=100000,
-                             extra_gate=lambda run: code_gate(run) + asdict_gate(run) + actions_gate(run)))
+                             extra_gate=lambda run: code_gate(run) + asdict_gate(run) + actions_gate(run) + dump_gate(run)))
     rng = rng_for(run, 'render')
     cases = campaign.make_cases(rng, budget(run, 3000, 80000), ALL)
     items = []
